@@ -14,7 +14,8 @@ RULE = (
     'G-truth records (strictly decreasing recession curve on the sampling '
     'lattice, constant specific yield in {1/8..1}, 3-8 storms each lifting '
     'the level along the curve in 1-4 heavy steps plus a drizzle step, dry '
-    'spells of 2-10 steps) x time step x grid step (dyadic 1, 0.5, 0.25, 2; '
+    'spells of 3-14 steps, in a third of the cases one or two readings skipped '
+    'inside a dry spell) x time step x grid step (dyadic 1, 0.5, 0.25, 2; '
     'decimal 0.1, 0.2, 0.3, 0.7, 2.5, 5) x thresholds consistent with the '
     'truth, always through user_interface.main on files: load, classify, '
     'set-zeta-grid, rise, recession. Oracle: average_rising_depth(level) = '
@@ -34,7 +35,7 @@ ASSUMPTIONS = ['classification of the planted record is as constructed '
 
 @st.composite
 def cases(draw, tier):
-    record = draw(gen_truth.truth_records(noise=False))
+    record = draw(gen_truth.truth_records(noise=False, gaps=True))
     grid = draw(st.sampled_from(
         ['1.0', '0.5', '0.25', '2.0', '1.0', '0.5',
          '0.1', '0.2', '0.3', '0.7', '2.5', '5.0']))
